@@ -172,10 +172,10 @@ fi
 
 # ---- platform pass: the same monitor built for a 32-bit platform (GOARCH=386: int and uint are 32 bits
 # wide) runs this property's quick-size workload; arithmetic done in int instead of a fixed-width type
-# only shows there. Thorough tier: every property; quick tier: the two cheap ones where it matters most
-# (C08 numeric limits, C19 bit layout). Its verdict counts: a violation there is a violation.
+# only shows there. Thorough tier: every property; quick tier: the three where it matters most
+# (C08 numeric limits, C19 bit layout, C11 alignment of the 8-byte value). Its verdict counts: a violation there is a violation.
 plat=0
-if [ "$TIER" = "thorough" ] || [ "$PROP" = "C08" ] || [ "$PROP" = "C19" ]; then plat=1; fi
+if [ "$TIER" = "thorough" ] || [ "$PROP" = "C08" ] || [ "$PROP" = "C19" ] || [ "$PROP" = "C11" ]; then plat=1; fi
 if [ $plat -eq 1 ] && [ $rc -eq 0 ] && [ "${VERIF_NO_PLATFORM:-0}" != "1" ]; then
   PDIR="$(mktemp -d /tmp/verif386.XXXXXX)"
   if (cd "$ROOT/harness" && GOARCH=386 go build "${MODFLAG[@]}" -o "$PDIR/mon386" ./cmd/mon) >/dev/null 2>&1; then
